@@ -1,0 +1,223 @@
+//go:build verif
+
+// Verification hooks (build tag "verif"). Add-only: a snapshot of the transport state of a
+// packet session, and a single-threaded bench that drives the real input / output functions of
+// one packet session (no event loops, no timers: which segments have timed out is an input).
+
+package protocol
+
+import (
+	"context"
+	"fmt"
+	"net"
+	"sync"
+	"time"
+
+	"github.com/enfein/mieru/v3/pkg/cipher"
+	"github.com/enfein/mieru/v3/pkg/common"
+)
+
+// VerifUDPState is a snapshot of the sliding-window state of a session.
+type VerifUDPState struct {
+	NextSend      uint32
+	NextRecv      uint32
+	SendLo        uint32 // lowest sequence number still held by sendBuf ∪ sendQueue; NextSend if both are empty
+	SendQueueLen  int
+	SendBufLen    int
+	RecvBufLen    int
+	RecvQueueLen  int
+	RemoteWindow  uint32
+	ReceiveWindow int
+	SendWindow    int
+	Cwnd          uint32
+	Closed        bool
+	OutputErr     bool
+}
+
+func (s *Session) verifState() VerifUDPState {
+	// Segments move from sendQueue to sendBuf, and sequence numbers are assigned, under oLock.
+	s.oLock.Lock()
+	st := VerifUDPState{NextSend: s.nextSend.Load()}
+	st.SendLo = st.NextSend
+	if seq, err := s.sendBuf.MinSeq(); err == nil {
+		st.SendLo = seq
+	} else if seq, err := s.sendQueue.MinSeq(); err == nil {
+		st.SendLo = seq
+	}
+	st.SendQueueLen = s.sendQueue.Len()
+	st.SendBufLen = s.sendBuf.Len()
+	s.oLock.Unlock()
+	st.NextRecv = s.nextRecv.Load()
+	st.RecvBufLen = s.recvBuf.Len()
+	st.RecvQueueLen = s.recvQueue.Len()
+	st.RemoteWindow = s.remoteWindowSize.Load()
+	st.ReceiveWindow = s.receiveWindowSize()
+	st.SendWindow = s.sendWindowSize()
+	st.Cwnd = s.cubicSendAlgorithm.CongestionWindowSize()
+	st.Closed = s.isState(sessionClosed) || s.closeRequested.Load()
+	st.OutputErr = s.outputHasErr.Load()
+	return st
+}
+
+// VerifUDPStateOf returns the transport state of conn if it is a session.
+func VerifUDPStateOf(conn net.Conn) (VerifUDPState, bool) {
+	s, ok := conn.(*Session)
+	if !ok || s == nil {
+		return VerifUDPState{}, false
+	}
+	return s.verifState(), true
+}
+
+type verifSink struct {
+	mu    sync.Mutex
+	count int
+	bytes int
+}
+
+func (k *verifSink) ReadFrom(p []byte) (int, net.Addr, error) { select {} }
+func (k *verifSink) WriteTo(p []byte, addr net.Addr) (int, error) {
+	k.mu.Lock()
+	k.count++
+	k.bytes += len(p)
+	k.mu.Unlock()
+	return len(p), nil
+}
+func (k *verifSink) Close() error                       { return nil }
+func (k *verifSink) LocalAddr() net.Addr                { return &net.UDPAddr{IP: net.IPv4(10, 9, 0, 2), Port: 40000} }
+func (k *verifSink) SetDeadline(t time.Time) error      { return nil }
+func (k *verifSink) SetReadDeadline(t time.Time) error  { return nil }
+func (k *verifSink) SetWriteDeadline(t time.Time) error { return nil }
+
+type verifSinkDialer struct{ sink *verifSink }
+
+func (d verifSinkDialer) ListenPacket(ctx context.Context, network, laddr, raddr string) (net.PacketConn, error) {
+	return d.sink, nil
+}
+
+// VerifUDPBench is one established client packet session attached to a client packet underlay
+// whose socket discards (and counts) what is written. Nothing runs in the background.
+type VerifUDPBench struct {
+	S    *Session
+	U    *PacketUnderlay
+	sink *verifSink
+}
+
+// VerifSeg is the retransmission bookkeeping of one segment of sendBuf.
+type VerifSeg struct {
+	Seq      uint32
+	TxCount  int
+	AckCount int
+}
+
+func VerifNewUDPBench(mtu int) (*VerifUDPBench, error) {
+	sink := &verifSink{}
+	block, err := cipher.BlockCipherFromPassword([]byte("verif-bench-password"), true)
+	if err != nil {
+		return nil, err
+	}
+	u, err := NewPacketUnderlay(context.Background(), verifSinkDialer{sink}, nil, "udp", "10.9.0.1:8964", mtu, block, nil)
+	if err != nil {
+		return nil, err
+	}
+	s := NewSession(7, true, mtu, nil, nil)
+	s.transportProtocol = common.PacketTransport
+	s.conn = u
+	s.remoteAddr = u.serverAddr
+	s.forwardStateTo(sessionEstablished)
+	return &VerifUDPBench{S: s, U: u, sink: sink}, nil
+}
+
+// Datagrams returns how many datagrams the session has written so far.
+func (b *VerifUDPBench) Datagrams() int {
+	b.sink.mu.Lock()
+	defer b.sink.mu.Unlock()
+	return b.sink.count
+}
+
+func (b *VerifUDPBench) State() VerifUDPState { return b.S.verifState() }
+
+// InputData hands a data segment (server to client) to the session's input function.
+func (b *VerifUDPBench) InputData(seq, unAck uint32, wnd uint16, payload []byte) error {
+	seg := &segment{
+		metadata: &dataAckStruct{
+			baseStruct: baseStruct{protocol: uint8(dataServerToClient)},
+			sessionID:  b.S.id, seq: seq, unAckSeq: unAck, windowSize: wnd, payloadLen: uint16(len(payload)),
+		},
+		payload:   append([]byte(nil), payload...),
+		transport: common.PacketTransport,
+	}
+	return b.S.input(seg)
+}
+
+// InputAck hands a pure ack to the session's input function.
+func (b *VerifUDPBench) InputAck(unAck uint32, wnd uint16) error {
+	seg := &segment{
+		metadata: &dataAckStruct{
+			baseStruct: baseStruct{protocol: uint8(ackServerToClient)},
+			sessionID:  b.S.id, unAckSeq: unAck, windowSize: wnd,
+		},
+		transport: common.PacketTransport,
+	}
+	return b.S.input(seg)
+}
+
+// ReadSegment calls Read with a buffer of n bytes unless that would block.
+func (b *VerifUDPBench) ReadSegment(n int) ([]byte, error) {
+	if b.S.recvQueue.Len() == 0 && len(b.S.unreadBuf) == 0 {
+		return nil, fmt.Errorf("nothing to read")
+	}
+	buf := make([]byte, n)
+	k, err := b.S.Read(buf)
+	return buf[:k], err
+}
+
+// Queue appends one data segment to sendQueue the way writeChunk does (without its back-pressure
+// waits); it reports whether the insertion succeeded.
+func (b *VerifUDPBench) Queue(payload []byte) (uint32, bool) {
+	s := b.S
+	s.oLock.Lock()
+	defer s.oLock.Unlock()
+	seq := s.nextSend.Load()
+	seg := &segment{
+		metadata: &dataAckStruct{
+			baseStruct: baseStruct{protocol: uint8(dataClientToServer)},
+			sessionID:  s.id, seq: seq, unAckSeq: s.nextRecv.Load(), windowSize: uint16(s.receiveWindowSize()),
+			payloadLen: uint16(len(payload)),
+		},
+		payload:   append([]byte(nil), payload...),
+		transport: common.PacketTransport,
+	}
+	s.nextSend.Add(1)
+	return seq, s.sendQueue.Insert(seg)
+}
+
+// SetTimers makes the retransmission timer of every segment of sendBuf either long expired
+// (expired[seq]) or far from expiring.
+func (b *VerifUDPBench) SetTimers(expired map[uint32]bool) {
+	now := time.Now().UnixMicro()
+	b.S.sendBuf.Ascend(func(iter *segment) bool {
+		seq, _ := iter.Seq()
+		if expired[seq] {
+			iter.txTime = now - int64(time.Hour/time.Microsecond)
+		} else {
+			iter.txTime = now + int64(time.Hour/time.Microsecond)
+		}
+		return true
+	})
+}
+
+// OutputOnce runs one round of the packet output function with the retransmission scan enabled.
+func (b *VerifUDPBench) OutputOnce() {
+	b.S.nextRetransmissionTime.Store(0)
+	b.S.runOutputOncePacket()
+}
+
+func (b *VerifUDPBench) SendBuf() []VerifSeg {
+	var out []VerifSeg
+	b.S.sendBuf.Ascend(func(iter *segment) bool {
+		seq, _ := iter.Seq()
+		out = append(out, VerifSeg{Seq: seq, TxCount: int(iter.txCount), AckCount: int(iter.ackCount)})
+		return true
+	})
+	return out
+}
